@@ -237,6 +237,9 @@ def applyCompare (op : BinOp) (cmp : Int) : Pred × Option Err :=
 inductive CbOut | val (p : Pred) (e : Option Err) | panic
 deriving Repr
 
+/-- `applyCompare` as a callback outcome -/
+def cmpOut (op : BinOp) (cmp : Int) : CbOut := .val (applyCompare op cmp).1 (applyCompare op cmp).2
+
 def isNumber : Item → Bool | .int _ | .flt _ | .jnum _ => true | _ => false
 
 /-- `parsableNumber(v)`: false for a json.Number that is neither an int64 nor a float64 -/
@@ -247,30 +250,30 @@ def parsableNumber : Item → Bool
 /-- `exec.compareItems(node, left, right)` -/
 def compareItems (c : Ctx) (op : BinOp) (l r : Item) : CbOut :=
   match l, r with
-  | .null, .null => let (p, e) := applyCompare op 0; .val p e
+  | .null, .null => cmpOut op 0
   | .null, _ => .val (predFrom (op = .ne)) none
   | _, .null => .val (predFrom (op = .ne)) none
   | .bool a, _ =>
     match compareBool a r with
-    | some cmp => let (p, e) := applyCompare op cmp; .val p e
+    | some cmp => cmpOut op cmp
     | none => .val .unknown none
   | .int _, _ | .flt _, _ | .jnum _, _ =>
     if isNumber r then
       if !parsableNumber l || !parsableNumber r then .val .unknown none else
       match Num.compareNumeric l r with
-      | some cmp => let (p, e) := applyCompare op cmp; .val p e
+      | some cmp => cmpOut op cmp
       | none => .panic
     else .val .unknown none
   | .str a, .str b =>
     let cmp : Int := match Item.strCmp a b with | .lt => -1 | .eq => 0 | .gt => 1
     if op = .eq then .val (predFrom (cmp = 0)) none
-    else let (p, e) := applyCompare op cmp; .val p e
+    else cmpOut op cmp
   | .str _, _ => .val .unknown none
   | .dt a, _ =>
     match r with
     | .dt b =>
       match Time.compareDatetime c.env c.useTZ a b with
-      | .ok cmp => if cmp < -1 then .val .unknown none else let (p, e) := applyCompare op cmp; .val p e
+      | .ok cmp => if cmp < -1 then .val .unknown none else cmpOut op cmp
       | .error _ => .val .unknown (some (.hard .tzRequired))
     | _ => .val .unknown (some .invalid)     -- unknownDateTime(val2): ErrInvalid
   | .arr _, _ | .obj _, _ => .val .unknown none
@@ -320,28 +323,27 @@ def pairStep (strict : Bool) (cb : Item → Item → CbOut) (acc : PairAcc) (l r
 def pairLoop (strict : Bool) (cb : Item → Item → CbOut) (ls rs : List Item) : PairAcc :=
   ls.foldl (fun acc l => rs.foldl (fun acc r => pairStep strict cb acc l r) acc) ⟨false, false, none⟩
 
+/-- the pair loop of `executePredicate` and its final verdict, from state `s` -/
+def predicateTail (c : Ctx) (s : St) (cb : Item → Item → CbOut) (lSeq rSeq : List Item) : PRes :=
+  let acc := pairLoop (!c.lax) cb lSeq rSeq
+  match acc.done with
+  | some (p, e, pk) => ⟨{ s with panicked := s.panicked || pk }, p, e⟩
+  | none =>
+    if acc.found then ⟨s, .t, none⟩
+    else if acc.hasErr then ⟨s, .unknown, none⟩
+    else ⟨s, .f, none⟩
+
 /-- `exec.executePredicate(pred, left, right, value, unwrapRightArg, callback)` -/
 def executePredicate (c : Ctx) (item : ItemK) (s : St) (left : Node) (right : Option Node) (v : Item)
     (unwrapRight : Bool) (cb : Item → Item → CbOut) : PRes :=
   let rl := optUnwrapResultSilent c item s left v true (some [])
   if rl.status = .failed then ⟨rl.st, .unknown, rl.err⟩ else
-  let lSeq := rl.found.getD []
-  let (s2, rSeq, rfail) : St × List Item × Option (Option Err) :=
-    match right with
-    | some rn =>
-      let rr := optUnwrapResultSilent c item rl.st rn v unwrapRight (some [])
-      if rr.status = .failed then (rr.st, [], some rr.err) else (rr.st, rr.found.getD [], none)
-    | none => (rl.st, [.null], none)
-  match rfail with
-  | some e => ⟨s2, .unknown, e⟩
-  | none =>
-    let acc := pairLoop (!c.lax) cb lSeq rSeq
-    match acc.done with
-    | some (p, e, pk) => ⟨{ s2 with panicked := s2.panicked || pk }, p, e⟩
-    | none =>
-      if acc.found then ⟨s2, .t, none⟩
-      else if acc.hasErr then ⟨s2, .unknown, none⟩
-      else ⟨s2, .f, none⟩
+  match right with
+  | some rn =>
+    let rr := optUnwrapResultSilent c item rl.st rn v unwrapRight (some [])
+    if rr.status = .failed then ⟨rr.st, .unknown, rr.err⟩
+    else predicateTail c rr.st cb (rl.found.getD []) (rr.found.getD [])
+  | none => predicateTail c rl.st cb (rl.found.getD []) [.null]
 
 def isCompareOp : BinOp → Bool
   | .eq | .ne | .lt | .gt | .le | .ge => true
@@ -739,12 +741,17 @@ structure KVAcc where
   ret : Option Res
   stop : Bool
 
+/-- the `{"key","value","id"}` object of one member -/
+def kvObj (id : Int) (kv : List Char × Item) : Item :=
+  .obj [("id".toList, .int id), ("key".toList, .str kv.1), ("value".toList, kv.2)]
+
+/-- `exec.lastGeneratedObjectID++; setTempBaseObject(obj, exec.lastGeneratedObjectID)` -/
+def kvEnter (c : Ctx) (st : St) (obj : Item) : St :=
+  { st with lastGenId := st.lastGenId + 1, baseAddr := c.addrOf obj, baseId := st.lastGenId + 1 }
+
 def kvStep (c : Ctx) (item : ItemK) (nx : Option Node) (id : Int) (a : KVAcc) (kv : List Char × Item) : KVAcc :=
   if a.ret.isSome || a.stop then a else
-  let obj : Item := .obj [("id".toList, .int id), ("key".toList, .str kv.1), ("value".toList, kv.2)]
-  let gen := a.st.lastGenId + 1
-  let s1 := { a.st with lastGenId := gen, baseAddr := c.addrOf obj, baseId := gen }
-  let r := executeNextItem c item s1 nx obj a.found
+  let r := executeNextItem c item (kvEnter c a.st (kvObj id kv)) nx (kvObj id kv) a.found
   if r.status = .failed then { a with st := r.st, found := r.found, res := r.status, ret := some r }
   else if r.status = .ok && a.found.isNone then { st := r.st, found := r.found, res := r.status, ret := none, stop := true }
   else { a with st := r.st, found := r.found, res := r.status }
@@ -846,36 +853,42 @@ structure AAcc where
   err : Option Err
   ret : Option Res
 
+/-- the "check expression" half of one iteration of `executeAnyItem` -/
+def anyVisit (item : ItemK) (node : Option Node) (level first last : Nat) (ignore unwrapNext : Bool)
+    (a : AAcc) (v : Item) : AAcc :=
+  if level ≥ first || (first = maxU32 && last = maxU32 && (collection v).isNone) then
+    match node with
+    | some n =>
+      let r := item (if ignore then { a.st with ignoreSE := true } else a.st) n v a.found unwrapNext
+      if r.status = .failed || (r.status = .ok && a.found.isNone) then
+        { st := r.st, found := r.found, res := r.status, err := r.err, ret := some r }
+      else { st := r.st, found := r.found, res := r.status, err := r.err, ret := none }
+    | none =>
+      match a.found with
+      | some l => { a with found := some (l ++ [v]), res := .ok }
+      | none => { a with ret := some ⟨a.st, none, .ok, none⟩ }
+  else a
+
+/-- the recursive half of one iteration of `executeAnyItem` -/
+def anyDescend (any : AnyK) (node : Option Node) (level first last : Nat) (ignore unwrapNext : Bool)
+    (a : AAcc) (v : Item) : AAcc :=
+  if level < last then
+    let r := any a.st node ((collection v).getD []) a.found (level + 1) first last ignore unwrapNext
+    if r.status = .failed || (r.status = .ok && a.found.isNone) then
+      { st := r.st, found := r.found, res := r.status, err := r.err, ret := some r }
+    else { st := r.st, found := r.found, res := r.status, err := r.err, ret := none }
+  else a
+
 /-- one iteration of the loop of `executeAnyItem` for element `v` -/
 def anyStep (item : ItemK) (any : AnyK) (node : Option Node) (level first last : Nat)
     (ignore unwrapNext : Bool) (a : AAcc) (v : Item) : AAcc :=
   match a.ret with
   | some _ => a
   | none =>
-    let col := collection v
-    let a1 : AAcc :=
-      if level ≥ first || (first = maxU32 && last = maxU32 && col.isNone) then
-        match node with
-        | some n =>
-          let s1 := if ignore then { a.st with ignoreSE := true } else a.st
-          let r := item s1 n v a.found unwrapNext
-          if r.status = .failed || (r.status = .ok && a.found.isNone) then
-            { st := r.st, found := r.found, res := r.status, err := r.err, ret := some r }
-          else { st := r.st, found := r.found, res := r.status, err := r.err, ret := none }
-        | none =>
-          match a.found with
-          | some l => { a with found := some (l ++ [v]), res := .ok }
-          | none => { a with ret := some ⟨a.st, none, .ok, none⟩ }
-      else a
+    let a1 := anyVisit item node level first last ignore unwrapNext a v
     match a1.ret with
     | some _ => a1
-    | none =>
-      if level < last then
-        let r := any a1.st node (col.getD []) a1.found (level + 1) first last ignore unwrapNext
-        if r.status = .failed || (r.status = .ok && a1.found.isNone) then
-          { st := r.st, found := r.found, res := r.status, err := r.err, ret := some r }
-        else { st := r.st, found := r.found, res := r.status, err := r.err, ret := none }
-      else a1
+    | none => anyDescend any node level first last ignore unwrapNext a1 v
 
 /-- `exec.executeAnyItem` (the body; `any` is the recursive call at smaller fuel) -/
 def executeAnyItem (item : ItemK) (any : AnyK) (s : St) (node : Option Node) (vs : List Item)
@@ -892,20 +905,24 @@ def executeAnyItem (item : ItemK) (any : AnyK) (s : St) (node : Option Node) (vs
       else a.res
     ⟨restore a.st, a.found, res, a.err⟩
 
+/-- the `switch value := value.(type)` of `execAnyNode`: descend into a container -/
+def anyInto (c : Ctx) (any : AnyK) (s1 : St) (first last : Nat) (nx : Option Node) (v : Item) (f1 : Found) : Res :=
+  match v with
+  | .obj kvs => any s1 nx (members kvs) f1 1 first last true c.lax
+  | .arr xs => any s1 nx xs f1 1 first last true c.lax
+  | _ => ⟨s1, f1, .notFound, none⟩
+
 /-- `exec.execAnyNode` -/
 def execAnyNode (c : Ctx) (item : ItemK) (any : AnyK) (s : St) (first last : Nat) (nx : Option Node)
     (v : Item) (f : Found) : Res :=
-  let restore (r : Res) : Res := { r with st := { r.st with ignoreSE := s.ignoreSE } }
-  let descend (s1 : St) (f1 : Found) : Res :=
-    match v with
-    | .obj kvs => any s1 nx (members kvs) f1 1 first last true c.lax
-    | .arr xs => any s1 nx xs f1 1 first last true c.lax
-    | _ => ⟨s1, f1, .notFound, none⟩
   if first = 0 then
     let r := executeNextItem c item { s with ignoreSE := true } nx v f
-    if r.status = .failed || (r.status = .ok && f.isNone) then restore r
-    else restore (descend r.st r.found)
-  else descend s f
+    if r.status = .failed || (r.status = .ok && f.isNone) then
+      { r with st := { r.st with ignoreSE := s.ignoreSE } }
+    else
+      let r2 := anyInto c any r.st first last nx v r.found
+      { r2 with st := { r2.st with ignoreSE := s.ignoreSE } }
+  else anyInto c any s first last nx v f
 
 /-! ## subscripts -/
 
@@ -960,20 +977,18 @@ structure IAcc where
   err : Option Err
   ret : Option Res
 
-/-- inner loop body: one selected element (`brk` is unused since the D7 repair: failure and probe
-    success return from the function) -/
-def indexElemStep (c : Ctx) (item : ItemK) (nx : Option Node) (a : IAcc × Bool) (v : Item) : IAcc × Bool :=
-  let (acc, brk) := a
-  if brk || acc.ret.isSome then a else
+/-- inner loop body: one selected element; failure and probe success return from the function -/
+def indexElemStep (c : Ctx) (item : ItemK) (nx : Option Node) (acc : IAcc) (v : Item) : IAcc :=
+  if acc.ret.isSome then acc else
   match v with
-  | .null => a                       -- `if v == nil { continue }`
+  | .null => acc                       -- `if v == nil { continue }`
   | _ =>
-    if nx.isNone && acc.found.isNone then ({ acc with ret := some ⟨acc.st, none, .ok, none⟩ }, brk)
+    if nx.isNone && acc.found.isNone then { acc with ret := some ⟨acc.st, none, .ok, none⟩ }
     else
       let r := executeNextItem c item acc.st nx v acc.found
-      let acc' : IAcc := { acc with st := r.st, found := r.found, res := r.status, err := r.err }
-      if r.status = .failed || (r.status = .ok && acc.found.isNone) then ({ acc' with ret := some r }, brk)
-      else (acc', false)
+      if r.status = .failed || (r.status = .ok && acc.found.isNone) then
+        { st := r.st, found := r.found, res := r.status, err := r.err, ret := some r }
+      else { st := r.st, found := r.found, res := r.status, err := r.err, ret := none }
 
 /-- outer loop body: one subscript -/
 def indexSubStep (c : Ctx) (item : ItemK) (nx : Option Node) (xs : List Item) (v : Item)
@@ -982,7 +997,7 @@ def indexSubStep (c : Ctx) (item : ItemK) (nx : Option Node) (xs : List Item) (v
   match execSubscript c item a.st sub v xs.length with
   | (s1, .error e) => { a with st := s1, ret := some (returnError s1 a.found e) }
   | (s1, .ok (from_, to_)) =>
-    ((sliceRange xs from_ to_).foldl (indexElemStep c item nx) ({ a with st := s1 }, false)).1
+    (sliceRange xs from_ to_).foldl (indexElemStep c item nx) { a with st := s1 }
 
 /-- `exec.execArrayIndex` -/
 def execArrayIndex (c : Ctx) (item : ItemK) (s : St) (subs : List Node) (nx : Option Node)
